@@ -762,6 +762,148 @@ func TestGocvReplay(t *testing.T) {
 `}
 	replayers["(*kmipclient.Client).Roundtrip$1"] = clientChain
 	replayers["(*kmipclient.Client).nextAt$1"] = clientChain
+	// batch semantics (C09): exhaustive small batches against an executable reading of the property
+	replayers["scenario:C09"] = &Replayer{PkgDir: "kmipserver", Oracle: "all batches of length <= 3 x option {unset, Continue, Stop, Undo} x per-item outcome {ok, typed error, plain error, panic, unrouted, critical extension} x IDs present/absent x count match/mismatch x version supported/unsupported, judged by the statement of the property",
+		Template: `package kmipserver
+
+import (
+	"context"
+	"errors"
+	"fmt"
+	"testing"
+
+	"github.com/ovh/kmip-go"
+	"github.com/ovh/kmip-go/payloads"
+)
+
+func TestGocvReplay(t *testing.T) {
+	outcomes := []string{"ok", "kmiperr", "err", "panic", "unrouted", "critical"}
+	opts := []kmip.BatchErrorContinuationOption{0, kmip.BatchErrorContinuationOptionContinue, kmip.BatchErrorContinuationOptionStop, kmip.BatchErrorContinuationOptionUndo}
+	for n := 0; n <= 3; n++ {
+		total := 1
+		for i := 0; i < n; i++ {
+			total *= len(outcomes)
+		}
+		for code := 0; code < total; code++ {
+			for _, opt := range opts {
+				for variant := 0; variant < 4; variant++ {
+					plan := make([]string, n)
+					c := code
+					for i := range plan {
+						plan[i] = outcomes[c%len(outcomes)]
+						c /= len(outcomes)
+					}
+					runs := make([]int, n)
+					order := []int{}
+					exec := NewBatchExecutor()
+					exec.Route(kmip.OperationActivate, HandleFunc(func(ctx context.Context, req *payloads.ActivateRequestPayload) (*payloads.ActivateResponsePayload, error) {
+						var idx int
+						fmt.Sscanf(req.UniqueIdentifier, "%d", &idx)
+						runs[idx]++
+						order = append(order, idx)
+						switch plan[idx] {
+						case "kmiperr":
+							return nil, ErrItemNotFound
+						case "err":
+							return nil, errors.New("boom")
+						case "panic":
+							panic("boom")
+						}
+						return &payloads.ActivateResponsePayload{UniqueIdentifier: req.UniqueIdentifier}, nil
+					}))
+					req := &kmip.RequestMessage{Header: kmip.RequestHeader{ProtocolVersion: kmip.V1_3, BatchErrorContinuationOption: opt, BatchCount: int32(n)}}
+					for i := 0; i < n; i++ {
+						bi := kmip.RequestBatchItem{Operation: kmip.OperationActivate, RequestPayload: &payloads.ActivateRequestPayload{UniqueIdentifier: fmt.Sprint(i)}}
+						if i%2 == 0 {
+							bi.UniqueBatchItemID = []byte{byte(i + 1)}
+						}
+						switch plan[i] {
+						case "unrouted":
+							bi.Operation = kmip.OperationRevoke
+							bi.RequestPayload = &payloads.RevokeRequestPayload{UniqueIdentifier: fmt.Sprint(i)}
+						case "critical":
+							bi.MessageExtension = &kmip.MessageExtension{VendorIdentification: "x", CriticalityIndicator: true, VendorExtension: nil}
+						}
+						req.BatchItem = append(req.BatchItem, bi)
+					}
+					reject := opt == kmip.BatchErrorContinuationOptionUndo
+					if variant == 1 {
+						req.Header.BatchCount++
+						reject = true
+					}
+					if variant == 2 {
+						req.Header.ProtocolVersion = kmip.ProtocolVersion{ProtocolVersionMajor: 9, ProtocolVersionMinor: 9}
+						reject = true
+					}
+					if variant == 3 && n == 0 {
+						continue
+					}
+					desc := fmt.Sprintf("plan=%v opt=%d variant=%d", plan, opt, variant)
+					var resp *kmip.ResponseMessage
+					func() {
+						defer func() {
+							if p := recover(); p != nil {
+								t.Fatalf("GOCV-REPRODUCED: {{.Obligation}}: HandleRequest panicked (%s): %v", desc, p)
+							}
+						}()
+						resp = exec.HandleRequest(context.Background(), req)
+					}()
+					executed := 0
+					for _, r := range runs {
+						executed += r
+					}
+					if reject {
+						if executed != 0 || resp == nil || len(resp.BatchItem) != 1 || resp.BatchItem[0].ResultStatus != kmip.ResultStatusOperationFailed || resp.Header.BatchCount != 1 {
+							t.Fatalf("GOCV-REPRODUCED: {{.Obligation}}: request that must be rejected (%s): %d handler runs, response %+v", desc, executed, resp)
+						}
+						continue
+					}
+					if resp == nil || len(resp.BatchItem) != n || int(resp.Header.BatchCount) != n || resp.Header.ProtocolVersion != req.Header.ProtocolVersion {
+						t.Fatalf("GOCV-REPRODUCED: {{.Obligation}}: wrong response shape (%s): %+v", desc, resp)
+					}
+					failedBefore := false
+					for i := 0; i < n; i++ {
+						ri := resp.BatchItem[i]
+						if ri.Operation != req.BatchItem[i].Operation || string(ri.UniqueBatchItemID) != string(req.BatchItem[i].UniqueBatchItemID) {
+							t.Fatalf("GOCV-REPRODUCED: {{.Obligation}}: item %d does not echo operation/ID (%s): %+v", i, desc, ri)
+						}
+						isHandler := plan[i] == "ok" || plan[i] == "kmiperr" || plan[i] == "err" || plan[i] == "panic"
+						wantRuns := 0
+						if isHandler {
+							wantRuns = 1
+						}
+						stop := opt == kmip.BatchErrorContinuationOptionStop
+						if stop && failedBefore {
+							wantRuns = 0
+							if ri.ResultStatus != kmip.ResultStatusOperationFailed {
+								t.Fatalf("GOCV-REPRODUCED: {{.Obligation}}: item %d after the first failed one is reported successful under Stop (%s)", i, desc)
+							}
+						}
+						if runs[i] != wantRuns {
+							t.Fatalf("GOCV-REPRODUCED: {{.Obligation}}: item %d handler ran %d time(s), expected %d (%s)", i, runs[i], wantRuns, desc)
+						}
+						wantFail := plan[i] != "ok" || (stop && failedBefore)
+						if (ri.ResultStatus == kmip.ResultStatusOperationFailed) != wantFail {
+							t.Fatalf("GOCV-REPRODUCED: {{.Obligation}}: item %d status %v, expected failed=%v (%s)", i, ri.ResultStatus, wantFail, desc)
+						}
+						if ri.ResultStatus == kmip.ResultStatusOperationFailed {
+							failedBefore = true
+						}
+					}
+					for i := 1; i < len(order); i++ {
+						if order[i] <= order[i-1] {
+							t.Fatalf("GOCV-REPRODUCED: {{.Obligation}}: handlers ran out of order %v (%s)", order, desc)
+						}
+					}
+				}
+			}
+		}
+	}
+}
+`}
+	for _, fn := range []string{"(*kmipserver.BatchExecutor).handleRequest", "(*kmipserver.BatchExecutor).executeItem"} {
+		replayers[fn] = replayers["scenario:C09"]
+	}
 	replayers["ttlv.bytesToBigInt"] = &Replayer{PkgDir: "ttlv", Inputs: []ReplayInput{{Name: "V", Expr: "v", Kind: "bytes"}},
 		Oracle: "bytesToBigInt on the model's bytes returns normally and leaves its argument unchanged",
 		Template: strings.Replace(replayPrelude, "{{.Pkg}}", "ttlv", 1) + `
